@@ -219,6 +219,17 @@ func (w *txWorld) fresh(i int, c txConfig) bool {
 
 func (w *txWorld) fingerprints() map[int]string {
 	fp := map[int]string{-1: deepFingerprint(w.B)}
+	if m, ok := w.base.(*util.MemoryNodeDB); ok {
+		// the committed store below the block: nothing in this universe ever writes it, and its node
+		// objects are what a cold read hands to whoever asks
+		var ns []string
+		_ = m.Iterate(context.Background(), func(ctx context.Context, key util.Key, node util.Node) error {
+			ns = append(ns, fmt.Sprintf("base %x enc=%x rehash=%x", []byte(key), node.Encode(), node.GetHashBytes()))
+			return nil
+		})
+		sort.Strings(ns)
+		fp[-2] = strings.Join(ns, "\n")
+	}
 	for i, k := range w.kids {
 		if k != nil {
 			fp[i] = deepFingerprint(k.t)
@@ -228,6 +239,9 @@ func (w *txWorld) fingerprints() map[int]string {
 }
 
 func who(i int) string {
+	if i == -2 {
+		return "the committed store below the block"
+	}
 	if i < 0 {
 		return "the block trie"
 	}
@@ -538,6 +552,8 @@ func C03(tier rt.Tier) int {
 			{name: "nested-2children-pnodedb", persistent: true, initial: map[string]string{"aa": "p", "aaab": "p"}, paths: nested[:6], vals: []string{"x"}, children: 2, opsPerKid: 2, directOps: false, depth: 6},
 			{name: "empty-base-1child", initial: nil, paths: pfPaths, vals: []string{"x", "y"}, children: 1, opsPerKid: 3, directOps: true, depth: 5},
 			// a child that overwrites and then restores what an earlier write of the same block created, plus one more change
+			// values on branches (keys that are prefixes of other keys), committed base in memory, cold reads
+			{name: "nested-membase-blind-writes", initial: map[string]string{"aa": "p", "aaab": "p", "ab": "q"}, paths: []string{"aa", "aaab", "ab", "aaaa"}, vals: []string{"x"}, children: 2, opsPerKid: 2, directOps: true, depth: 6},
 			// a transaction inside a transaction: T1 is a child of T0
 			{name: "nested-child-of-child", initial: map[string]string{"0a1b": "p"}, paths: pfPaths[:3], vals: []string{"x"}, children: 2, parentOf: []int{-1, 0}, opsPerKid: 2, directOps: true, depth: 6},
 			{name: "restore-within-block", initial: map[string]string{"0b22": "p"}, paths: pfPaths[:2], vals: []string{"x", "y"}, children: 1, opsPerKid: 3, directOps: true, depth: 7},
